@@ -414,6 +414,16 @@ def run_unit(recipe_mod, workdir):
     except LostAnchor as e:
         r.status, r.reason = "undecided", "lost anchor: %s" % e
         return r
+    # a loop in extracted code that did not receive an invariant from the recipe (the code's shape changed): the proof
+    # cannot even be attempted - that is "undecided", never a violation
+    for pc in ub.pieces():
+        rendered = pc.render()
+        for m in re.finditer(r"^[ \t]*(?:'\w+:\s*)?(while|loop|for)\b([^{;]*)\{", rendered, re.M):
+            if "invariant" not in m.group(2):
+                r.status = "undecided"
+                r.reason = "a `%s` loop of the extracted code has no invariant in the recipe (code shape changed): %s" % (
+                    m.group(1), re.sub(r"\s+", " ", m.group(0))[:80])
+                return r
     r.functions = ub.functions
     r.assumptions = ub.assumptions
     r.textual = [{"check": n, "holds": bool(ok), "text": t} for n, ok, t in getattr(ub, "textual", [])]
